@@ -216,11 +216,16 @@ func (in *rinterp) bigCall(name string, args []interface{}) interface{} {
 		in.fail("CmpAbs")
 	case "Bit":
 		a := o(0).v
-		if a.k != kQuot {
-			in.fail("Bit of %v", a)
-		}
 		if bi, ok := args[1].(int64); !ok || bi != 0 {
 			in.fail("Bit(%v)", args[1])
+		}
+		if a.k == kRem && !in.c().RZ && in.c().H == 0 && in.divVal != nil {
+			// on a tie the remainder's magnitude is exactly half the (constant) divisor: its parity is known
+			half := new(big.Int).Quo(in.divVal, big.NewInt(2))
+			return int64(half.Bit(0))
+		}
+		if a.k != kQuot {
+			in.fail("Bit of %v", a)
 		}
 		odd := in.c().Odd
 		if a.off%2 != 0 {
